@@ -416,21 +416,28 @@ impl Sparse<f64> {
             v = self.multiply( &phat );
             alpha = rho_1 / rtilde.dot( &v );
             s = r.clone() - v.clone() * alpha;
+            *x += alpha * phat.clone();
             resid = s.norm_2() / normb;
             if resid <= tol {
-                *x += phat.clone() * alpha;
-                return Ok( i );
+                // The recurrence residual drifts and, after a near breakdown, is meaningless: confirm
+                // with the true residual and carry on from it
+                s = b.clone() - self.multiply( x );
+                resid = s.norm_2() / normb;
+                if resid <= tol { return Ok( i ); }
             }
             //shat = s; //could have preconditioner here shat = M.solve(s);
             self.identity_preconditioner( &s, &mut shat );
             t = self.multiply( &shat );
             omega = t.dot( &s ) / t.dot( &t );
-            *x += alpha * phat.clone();
             *x += omega * shat.clone();
             r = s - t * omega;
             rho_2 = rho_1;
             resid = r.norm_2() / normb;
-            if resid < tol { return Ok( i ); }
+            if resid < tol {
+                r = b.clone() - self.multiply( x );
+                resid = r.norm_2() / normb;
+                if resid < tol { return Ok( i ); }
+            }
             if omega == 0.0 { return Err( resid ); }
         }
         Err(resid)
